@@ -25,14 +25,14 @@ class FMesh:
 
 
 class FDisc:
-    """R(t,q)_i = c0 + c1 t + (c2 + c3 t) q_i + c4 q_i q_{i+1};  dt_i = cfl w_i (q_i >= 0) or cfl w_i / 2"""
+    """R(t,q)_i = c0 + c1 t + (c2 + c3 t) q_i + c4 q_i q_{i+1};  dt_i = cfl w_i (q_i >= 1/3) or cfl w_i / 2"""
     def __init__(self, c, w):
         self.c = [float(x) for x in c]; self.w = np.array(w, dtype=float); self.nelem = len(w); self.nrhs = 0
     def rhs(self, f):
         t = float(f.time); qd = np.array(f.data[0], dtype=float); c = self.c; self.nrhs += 1
         return [c[0] + c[1] * t + (c[2] + c[3] * t) * qd + c[4] * qd * np.roll(qd, -1)]
     def calc_timestep(self, f, cfl):
-        return np.where(f.data[0] >= 0, cfl * self.w, cfl * self.w / 2)
+        return np.where(f.data[0] >= 1.0 / 3.0, cfl * self.w, cfl * self.w / 2)
     def all_L2average(self, r):
         return float(np.sqrt(np.mean(np.square(r[0]))))
 
